@@ -445,6 +445,10 @@ class PteraTransformer(NodeTransformer):
             self.annotated[target.id] = evaluated
             self.linenos[target.id] = target.lineno
         ann_arg = ann if ann else ast.Constant(value=None)
+        if ann and self._evaluate(ann) is ABSENT:
+            # Python never evaluates the annotation of a local variable:
+            # one that cannot be evaluated must not fail at run time either
+            ann_arg = ast.Constant(value=None)
         value_arg = self._get("ABSENT") if value is None else value
         if isinstance(target, ast.Name):
             value_args = [
